@@ -64,7 +64,7 @@ theorem runCase_alives (searches : List SearchIn) (a : AnnIn) :
       = (List.range (ticks k a)).map (aliveObs k t cfg target a.start) := by
   simp [runCase, alives, List.map_map, Function.comp_def, aliveObs]
 
-theorem okNotify_alive (hw : WF t) (hl : validLocation cfg.location = true) (searches : List SearchIn)
+theorem okNotify_alive (hw : WF t) (searches : List SearchIn)
     (ann : Option AnnIn) (start : Int) (i : Nat) :
     okNotify (runCase k cfg target t searches ann) ntsAlive 1 (aliveObs k t cfg target start i) = true := by
   have hm := aliveAt_mem t i
@@ -77,9 +77,12 @@ theorem okNotify_alive (hw : WF t) (hl : validLocation cfg.location = true) (sea
     true_and, and_true]
   refine ⟨e, he, ⟨⟨h1.symm, h2.symm⟩, ?_⟩, ?_⟩
   · rw [h2]; exact heok.usn_prefix
-  · rw [hearAlive_ok heok cfg h2 (by rw [h1]; exact heok.st) hl]; simp [heardOk, hl]
+  · by_cases hl : validLocation cfg.location = true
+    · rw [hearAlive_ok heok cfg h2 (by rw [h1]; exact heok.st) hl]; simp [heardOk, hl]
+    · have hl' : validLocation cfg.location = false := by simpa using hl
+      simp [heardOk, hl']
 
-theorem okNotify_byebye (hw : WF t) (hl : validLocation cfg.location = true) (searches : List SearchIn)
+theorem okNotify_byebye (hw : WF t) (searches : List SearchIn)
     (ann : Option AnnIn) (time : Int) {m : Msg} (hm : m ∈ byebyes t) :
     okNotify (runCase k cfg target t searches ann) ntsByebye 2 (obsByebye cfg target time m) = true := by
   unfold byebyes at hm
@@ -92,13 +95,16 @@ theorem okNotify_byebye (hw : WF t) (hl : validLocation cfg.location = true) (se
     true_and, and_true]
   refine ⟨e, he, ⟨⟨h1.symm, h2.symm⟩, ?_⟩, ?_⟩
   · rw [h2]; exact heok.usn_prefix
-  · rw [hearByebye_ok heok cfg h2 (by rw [h1]; exact heok.st) hl]; simp [heardOk, hl]
+  · by_cases hl : validLocation cfg.location = true
+    · rw [hearByebye_ok heok cfg h2 (by rw [h1]; exact heok.st) hl]; simp [heardOk, hl]
+    · have hl' : validLocation cfg.location = false := by simpa using hl
+      simp [heardOk, hl']
 
 theorem keyOf_aliveObs (start : Int) (i : Nat) :
     keyOf (aliveObs k t cfg target start i) = keyM (aliveAt t i) := rfl
 
 /-- **round-robin**: the announcer of a model run satisfies the judge's announcement clause -/
-theorem okAlives_run (hk : ConstsOk k) (hw : WF t) (hl : validLocation cfg.location = true)
+theorem okAlives_run (hk : ConstsOk k) (hw : WF t)
     (searches : List SearchIn) (ann : Option AnnIn) :
     okAlives (runCase k cfg target t searches ann) = true := by
   cases ann with
@@ -140,7 +146,7 @@ theorem okAlives_run (hk : ConstsOk k) (hw : WF t) (hl : validLocation cfg.locat
     · rw [List.all_eq_true]
       intro m hm
       obtain ⟨i, _, rfl⟩ := List.mem_map.mp hm
-      exact okNotify_alive cfg target hw hl searches (some a) a.start i
+      exact okNotify_alive cfg target hw searches (some a) a.start i
     · -- none after the stop
       simp only [runCase]
       split
@@ -224,7 +230,7 @@ theorem okAlives_run (hk : ConstsOk k) (hw : WF t) (hl : validLocation cfg.locat
           · right; omega
         · omega
 
-theorem okByebyes_run (hw : WF t) (hl : validLocation cfg.location = true)
+theorem okByebyes_run (hw : WF t)
     (searches : List SearchIn) (ann : Option AnnIn) :
     okByebyes (runCase k cfg target t searches ann) = true := by
   cases ann with
@@ -248,7 +254,7 @@ theorem okByebyes_run (hw : WF t) (hl : validLocation cfg.location = true)
         intro m hm
         obtain ⟨m', hm', rfl⟩ := List.mem_map.mp hm
         rw [Bool.and_eq_true]
-        exact ⟨okNotify_byebye cfg target hw hl searches (some a) a.upto hm', by simp [obsByebye]⟩
+        exact ⟨okNotify_byebye cfg target hw searches (some a) a.upto hm', by simp [obsByebye]⟩
     · have h1 : (runCase k cfg target t searches (some a)).stopTime = none := by simp [runCase, hs]
       have h2 : (runCase k cfg target t searches (some a)).byebyes = [] := by simp [runCase, hs]
       rw [h1]; simp [h2]
